@@ -110,7 +110,7 @@ let o_err = function
   | EUser n -> tok "EUser"; tok (bin_of_n n)
   | EArity -> tok "EArity" | ESyntaxUnpack -> tok "ESyntaxUnpack" | ESyntax -> tok "ESyntax"
   | ENotIterable -> tok "ENotIterable" | EValueBrackets -> tok "EValueBrackets"
-  | EWrapper -> tok "EWrapper" | EUnmodelled -> tok "EUnmodelled"
+  | EWrapper -> tok "EWrapper" | ECycle -> tok "ECycle" | EUnmodelled -> tok "EUnmodelled"
 let o_res f = function Ok x -> tok "ok"; f x | Err e -> tok "err"; o_err e
 let o_run (r, st) = o_res o_value r; o_int (List.length st); List.iter (fun z -> tok (bin_of_z z)) st
 let o_render r = o_res (fun (m, sp) -> o_model m; o_bool sp) r
